@@ -36,8 +36,10 @@ func JSONPBWithOpt(m protoreflect.ProtoMessage, filename string, fs afero.Fs, o 
 	return FJSONPBWithOpt(f, m, o)
 }
 
-// Recognise extra whitespace after a JSON key.
-var extraSpaceAfterKeyRE = regexp.MustCompile(`(?m)^(\s*"[^"]*": ) `)
+// Recognise extra whitespace after a JSON key. The key must be matched as a
+// complete JSON string (escapes included), otherwise a string that merely
+// contains `": ` (an array element, or a key with an escaped quote) loses a blank.
+var extraSpaceAfterKeyRE = regexp.MustCompile(`(?m)^(\s*"(?:[^"\\]|\\.)*": ) `)
 
 // FJSONPB ...
 func FJSONPB(w io.Writer, m protoreflect.ProtoMessage) error {
